@@ -6,6 +6,7 @@ import (
 	"testing"
 	"testing/synctest"
 
+	"go.minekube.com/gate/pkg/edition/java/config"
 	"go.minekube.com/gate/pkg/edition/java/proto/state"
 	"go.minekube.com/gate/pkg/edition/java/proto/version"
 	"go.minekube.com/gate/pkg/edition/java/proxy/zzverif/vrt"
@@ -19,6 +20,8 @@ type c15Case struct {
 	C2S             []int // payload sizes client -> backend (data bytes after the id)
 	S2C             []int
 	Order           []int // 0 = deliver next client packet, 1 = deliver next backend packet
+	C2SKinds        []string `json:",omitempty"` // per C2S element: "" = unregistered id, else a known pass-through type (c15_known_test.go)
+	S2CKinds        []string `json:",omitempty"`
 }
 
 func fill(n int, seed byte, compressible bool) []byte {
@@ -50,7 +53,9 @@ func runC15(t *testing.T, c c15Case) (fk, fd string) {
 		}
 	}
 	synctest.Test(t, func(t *testing.T) {
-		w := newKWorld(t, kOpts{Servers: []string{"a"}, Try: []string{"a"}, ClientThreshold: c.ClientThreshold})
+		w := newKWorld(t, kOpts{Servers: []string{"a"}, Try: []string{"a"}, ClientThreshold: c.ClientThreshold,
+			// the scripted 1.19-1.19.2 client has no profile key (offline mode)
+			Mutate: func(cfg *config.Config) { cfg.ForceKeyAuthentication = false }})
 		protocol := proto.Protocol(c.Protocol)
 		cl, be, err := w.joinInitial(protocol, "Relay_1", c.BackendThreshold)
 		defer func() { w.close(cl) }()
@@ -71,11 +76,27 @@ func runC15(t *testing.T, c c15Case) (fk, fd string) {
 		for step, dir := range c.Order {
 			if dir == 0 {
 				p := payloadFor(sIDs[ci%len(sIDs)], c.C2S[ci], byte(ci*2+1))
+				if ci < len(c.C2SKinds) && c.C2SKinds[ci] != "" {
+					kp, ok := c15Known(c.C2SKinds[ci], protocol)
+					if !ok {
+						fail("setup", "known type %s not encodable for protocol %d", c.C2SKinds[ci], protocol)
+						return
+					}
+					p = kp
+				}
 				ci++
 				sentC2S = append(sentC2S, p)
 				cl.sendPayload(p)
 			} else {
 				p := payloadFor(cIDs[si%len(cIDs)], c.S2C[si], byte(si*2+2))
+				if si < len(c.S2CKinds) && c.S2CKinds[si] != "" {
+					kp, ok := c15Known(c.S2CKinds[si], protocol)
+					if !ok {
+						fail("setup", "known type %s not encodable for protocol %d", c.S2CKinds[si], protocol)
+						return
+					}
+					p = kp
+				}
 				si++
 				sentS2C = append(sentS2C, p)
 				be.sendPayload(p)
@@ -180,6 +201,29 @@ func TestVerif(t *testing.T) {
 			}
 			return
 		}
+		// known pass-through types (tab-list mirror, boss bars, keep-alive, header/footer, bundle delimiter, client settings)
+		kidx := 0
+		c15KnownCases(r, func(c c15Case) {
+			kidx++
+			if !r.Mine(kidx) || r.Expired() {
+				return
+			}
+			k, d := runC15(t, c)
+			r.Eval(1)
+			r.Traces(1)
+			r.Nontrivial(1)
+			r.Class(fmt.Sprintf("proto:%d", c.Protocol))
+			r.Class(c15KindLabel(c))
+			if k != "" {
+				if lbl := c15KindLabel(c); lbl != "" && k != "setup" {
+					k = lbl + "/" + k
+				}
+				r.Violation(k, fmt.Sprintf("%+v\n%s", c, d), c)
+			}
+			if kidx%500 == 1 {
+				r.Sample(c)
+			}
+		})
 		protos := []proto.Protocol{version.Minecraft_1_8.Protocol, version.Minecraft_1_12_2.Protocol, version.Minecraft_1_20_3.Protocol, version.Minecraft_1_21_4.Protocol, version.MaximumVersion.Protocol}
 		ths := []int{-1, 0, 64, 256}
 		idx := 0
